@@ -563,6 +563,64 @@ func PutBystanders(s *sim.Server, n int) []string {
 	return keys
 }
 
+// NameTracker accumulates the store keys named in a manifest or hook of any revision of one
+// release: from every ledger handed to Add, and from the raw ledger read at the moment of every
+// resource DELETE request of the watched agents (a revision record may exist only while the op
+// runs, e.g. install --atomic that fails and purges its own record).
+type NameTracker struct {
+	mu    sync.Mutex
+	named map[string]bool
+	ns    string
+}
+
+// TrackNames installs the tracker as the simulator's Gate.
+func TrackNames(w *env.World, rel, ns, agentPrefix string) *NameTracker {
+	t := &NameTracker{named: map[string]bool{}, ns: ns}
+	w.Sim.Gate = func(r *sim.Req) {
+		if DriftTrace != nil {
+			DriftTrace(r)
+		}
+		if r.Method == "DELETE" && r.Class == "mutation" && strings.HasPrefix(r.Agent, agentPrefix) {
+			recs, _ := w.Ledger(rel)
+			t.Add(recs)
+		}
+	}
+	return t
+}
+
+func (t *NameTracker) Add(recs []env.Rec) {
+	t.mu.Lock()
+	ref.ReleaseObjectKeys(t.named, recs, t.ns)
+	t.mu.Unlock()
+}
+
+func (t *NameTracker) Snapshot() map[string]bool {
+	t.mu.Lock()
+	defer t.mu.Unlock()
+	out := make(map[string]bool, len(t.named))
+	for k := range t.named {
+		out[k] = true
+	}
+	return out
+}
+
+// EventKey maps a logged request to the store key it addressed ("" for lists).
+func EventKey(e sim.Event) string {
+	if e.Name == "" {
+		return ""
+	}
+	for i := range sim.Resources {
+		if r := &sim.Resources[i]; r.Kind == e.Kind {
+			ns := e.NS
+			if !r.Namespaced {
+				ns = ""
+			}
+			return sim.Key(r.Group, r.Plural, ns, e.Name)
+		}
+	}
+	return ""
+}
+
 // StepObs is what was observed around one op of a drift history.
 type StepObs struct {
 	I       int
@@ -597,19 +655,7 @@ func RunDriftHistory(dc DriftCase, each func(w *env.World, o *StepObs)) *env.Wor
 	w := env.NewWorld(dc.Driver, DriftNS)
 	PutBystanders(w.Sim, dc.NBystand)
 	w.Exec("other-install", DriftOther, env.Op{Kind: "install"}, otherChart().Build())
-	named := map[string]bool{}
-	var nmu sync.Mutex
-	w.Sim.Gate = func(r *sim.Req) {
-		if DriftTrace != nil {
-			DriftTrace(r)
-		}
-		if r.Method == "DELETE" && r.Class == "mutation" && strings.HasPrefix(r.Agent, "op") {
-			recs, _ := w.Ledger(DriftRel)
-			nmu.Lock()
-			ref.ReleaseObjectKeys(named, recs, DriftNS)
-			nmu.Unlock()
-		}
-	}
+	nt := TrackNames(w, DriftRel, DriftNS, "op")
 	drifted := map[string][]string{}
 	for i, st := range dc.Steps {
 		o := &StepObs{I: i, Step: st, Agent: fmt.Sprintf("op%d", i)}
@@ -627,9 +673,7 @@ func RunDriftHistory(dc DriftCase, each func(w *env.World, o *StepObs)) *env.Wor
 		o.S0 = w.Sim.Snapshot()
 		o.L0, _ = w.Ledger(DriftRel)
 		o.OtherL0, _ = w.Ledger(DriftOther)
-		nmu.Lock()
-		ref.ReleaseObjectKeys(named, o.L0, DriftNS)
-		nmu.Unlock()
+		nt.Add(o.L0)
 		w.Script.Reset()
 		w.Sim.ClearFaults()
 		switch {
@@ -663,13 +707,8 @@ func RunDriftHistory(dc DriftCase, each func(w *env.World, o *StepObs)) *env.Wor
 				o.Scripted = true
 			}
 		}
-		nmu.Lock()
-		ref.ReleaseObjectKeys(named, o.L1, DriftNS)
-		o.Named = map[string]bool{}
-		for k := range named {
-			o.Named[k] = true
-		}
-		nmu.Unlock()
+		nt.Add(o.L1)
+		o.Named = nt.Snapshot()
 		each(w, o)
 		if o.Success() {
 			drifted = map[string][]string{}
